@@ -79,8 +79,11 @@ Definition arms_routes (sk : skeleton) : bool :=
                     | KCompute | KOptimize => match a_ok a with RDb | RNone => true | _ => false end
                     | _ => true
                     end) (sk_arms sk).
+(* the error exits of daily_log.write and of COMMIT issue ROLLBACK as well (C13-fix-1) *)
+Definition exits_rollback (sk : skeleton) : bool := sk_marks_rollback sk && sk_commit_rollback sk.
 Definition sk_ok (sk : skeleton) : bool :=
-  shape_ok sk && arms_complete sk && arms_rollback sk && arms_ack sk && arms_fallible sk && arms_routes sk.
+  shape_ok sk && arms_complete sk && arms_rollback sk && arms_ack sk && arms_fallible sk && arms_routes sk &&
+  exits_rollback sk.
 
 (* ------------------------------------------------------------------ data *)
 (* a row is named by (cell, id): the cell is the daily-log cell (room, entity, day) it belongs to,
